@@ -613,7 +613,25 @@ func Drive(run *common.Run, prop string, b Budget) {
 			oracle(run, id, res)
 			return
 		}
-		run.Case(id, ModelInput(res), implLine(res))
+		if prop == "C04" && c.OwnLim && c.Mode == "g" && len(res.Frees) > 0 {
+			// C04's runner also judges the semaphore readings (Model/CopyPermit.v): each one travels as the token
+			// TB.<free> right after the event it was taken at (CopyGraph never calls dst.Tag: the token is unused)
+			saved := res.Toks
+			var with []string
+			for i, t := range saved {
+				with = append(with, t)
+				if i < len(res.Frees) && res.Frees[i] >= 0 { // (the one after RT.* is the reading after the return: all free)
+					with = append(with, fmt.Sprintf("TB.%d", res.Frees[i]))
+					run.Extra["limiter_readings_in_model_input"] = maxInt(run.Extra["limiter_readings_in_model_input"], 0) + 1
+				}
+			}
+			res.Toks = with
+			line := ModelInput(res)
+			res.Toks = saved
+			run.Case(id, line, implLine(res))
+		} else {
+			run.Case(id, ModelInput(res), implLine(res))
+		}
 		run.TracesAgainstImpl++
 		oracle(run, id, res)
 		// non-trivial: the run met a present node, a shared node, a duplicate or foreign successor, or a subject edge
